@@ -321,7 +321,11 @@ _extend("C07", "the dividing volume object is part of the quick lattice too (432
                "read the time and the volume, and the expected first row is evaluated at the first grid time and at the volume in play.")
 _extend("C08", "a third seeded run after using the generator in other ways (an odd number of normal / uniform / exponential / "
                "gamma / erlang / binomial draws) must equal the first; a verdict that varies between executions of one case is "
-               "reported with a replay that runs the case repeatedly in one process.")
+               "reported with a replay that runs the case repeatedly in one process.  A second sub-search builds "
+               "LineageModels incrementally (growth / division / death rules and events, with and without parameters, "
+               "added one at a time in random order around py_initialize and seeded lineage / single-cell simulations) "
+               "and compares cell counts, per-cell records and the single-cell trace with a LineageModel given the "
+               "same definition at once (2.5k quick / 30k thorough histories).")
 _extend("C09", "dt counters and ODE rules may target a parameter that a repeated rule mirrors into an observable species; one "
                "case in four extends the constructor-initialised model by an unused parameter before simulating (second initialisation).")
 _extend("C11", "the reported grid may start 1, 2 or 5 steps after the simulation start (growth law and division step are counted "
